@@ -78,6 +78,18 @@ def judge (j : Json) : R Verdict := do
       match obs.getObjVal? "ok" with
       | .ok o => if o.compress != expect.compress then spec := spec ++ ["inverts-encoding:" ++ gen]
       | .error _ => spec := spec ++ ["rejects-admissible-encoding:" ++ gen]
+    -- a bare number literal is read as the integer it denotes (when it denotes one), or rejected
+    if let .str lit := fieldD j "literal" then
+      match obs.getObjVal? "ok" with
+      | .ok o =>
+        match o.getObjVal? "int" with
+        | .ok (.str got) =>
+          -- `2.0`, `1e3` denote integers too: compare through the decimal expansion when plain
+          match lit.toInt? with
+          | some n => if got.toInt? != some n then spec := spec ++ ["number-literal-altered"]
+          | none => pure ()
+        | _ => pure ()
+      | .error _ => pure ()
     -- ill-formed text must not be accepted as bytes/ints
     if gen == "ill-formed" then
       match v, ty, obs.getObjVal? "ok" with
